@@ -92,6 +92,7 @@ mut("C07", "inner_error_swallowed", "C07.R1", [(B_, "Poll::Ready(Some(Err(e))) =
 mut("C07", "reintroduce_F6", "C07.R3", [(S, "                        this.cur = None;\n                        this.remaining = 0;", "                        this.remaining = 0;")], also="C20 C12")
 # ---------------- C08
 mut("C08", "write_returns_full_len", "C08.R1", [(C, "            self.flush()?;\n        }\n        Ok(bytes)", "            self.flush()?;\n        }\n        Ok(buf.len())")])
+mut("C08", "chunk_size_zero_accepted", "C08.R2.ctor", [(C, "        assert!(cap > 0);\n", "")])
 mut("C08", "pop_back", "C08.R5", [(C, "if let Some(c) = ready.pop_front() {", "if let Some(c) = ready.pop_back() {")], also="C11")
 mut("C08", "writer_dropped_always_true", "C08.R7", [(C, "*writer_dropped = dropping;", "*writer_dropped = true;")], also="C10 C12")
 mut("C08", "full_lt", "C08.R2", [(C, "let full = remaining <= buf.len();", "let full = remaining < buf.len();")])
@@ -150,7 +151,8 @@ mut("C17", "header_ignores_level", "C17.R2", [(L, "        if self.should_gzip &
 mut("C17", "vary_only_when_gzip", "C17.R1", [(L, "        resp.headers_mut()\n            .append(header::VARY, HeaderValue::from_static(\"accept-encoding\"));\n\n        if self.should_gzip && self.gzip_level > 0 {\n            resp.headers_mut()", "        if self.should_gzip && self.gzip_level > 0 {\n            resp.headers_mut()\n                .append(header::VARY, HeaderValue::from_static(\"accept-encoding\"));\n            resp.headers_mut()")])
 mut("C17", "gz_write_bypasses_encoder", "C17.R4", [(G, "            Inner::Gzipped(ref mut w) => w.write(buf),", "            Inner::Gzipped(ref mut w) => w.get_mut().write(buf),")])
 mut("C17", "writer_ignores_level", "C17.R2", [(L, "let w = match self.should_gzip && self.gzip_level > 0 {", "let w = match self.should_gzip {")])
-mut("C17", "level_constant", "C17.R4", [(L, "flate2::Compression::new(self.gzip_level)", "flate2::Compression::new(6)")])
+# (not a violation of C17 as stated: the property fixes whether the body is gzip, not the compression level - kept as a benign case)
+benign("gzip_level_constant", "C17 C08", [(L, "flate2::Compression::new(self.gzip_level)", "flate2::Compression::new(6)")])
 mut("C17", "parts_headers_returns_default", "C17.R3", [(L, "    fn headers(&self) -> &http::HeaderMap {\n        &self.headers\n    }", "    fn headers(&self) -> &http::HeaderMap {\n        static EMPTY: std::sync::OnceLock<http::HeaderMap> = std::sync::OnceLock::new();\n        let _ = &self.headers;\n        EMPTY.get_or_init(http::HeaderMap::new)\n    }")])
 # ---------------- C18
 mut("C18", "no_is_file_check", "C18.R1", [(FI, "        if !metadata.is_file() {\n            return Err(io::Error::new(io::ErrorKind::Other, \"expected a file\"));\n        }\n", "")])
